@@ -120,6 +120,9 @@ class ChainNode(Entity):
         self._pending_writes: dict[int, SimFuture] = {}
         self._next_seq: int = 0
 
+        # Highest propagated seq applied per key (propagations may be reordered)
+        self._applied_seq: dict[str, int] = {}
+
         self._writes_received = 0
         self._propagations_sent = 0
         self._propagations_received = 0
@@ -262,8 +265,15 @@ class ChainNode(Entity):
         if self._craq_enabled:
             self._mark_dirty(key, seq)
 
-        # Apply locally
-        yield from self._store.put(key, value)
+        # Apply locally, unless a newer write to this key was already applied
+        # (propagations can be reordered in flight). The seq is recorded before
+        # the store write suspends so that a stale message arriving meanwhile is
+        # recognised as stale. A superseded write is still forwarded / acked.
+        if seq > self._applied_seq.get(key, -1):
+            self._applied_seq[key] = seq
+            yield from self._store.put(key, value)
+        else:
+            yield self._store.write_latency
 
         if self._role == ChainNodeRole.TAIL:
             # Send ack back to head
